@@ -1104,6 +1104,13 @@ impl MachineState {
                     _ => {
                         push_cell!(self, heap_loc_as_cell!(h), return);
                         self.occurs_check.bind(self, Ref::heap_cell(h), value);
+
+                        // the occurs check can fail here: the structure being
+                        // written is already bound to a variable of the head
+                        if self.fail {
+                            self.backtrack();
+                            return;
+                        }
                     }
                 );
             }
@@ -1152,6 +1159,13 @@ impl MachineState {
 
                 let addr = self.store(self[r]);
                 self.occurs_check.bind(self, Ref::heap_cell(h), addr);
+
+                // the occurs check can fail here: the structure being
+                // written is already bound to a variable of the head
+                if self.fail {
+                    self.backtrack();
+                    return;
+                }
 
                 // the former code of this match arm was:
 
